@@ -306,6 +306,8 @@ impl Storage {
                 let span_write_subpartitions = tracer.start_span("write_subpartitions");
                 self.write_subpartitions(&partition, subpartition_cols, false);
                 tracer.end_span(span_write_subpartitions);
+                #[cfg(locustdb_verif)]
+                crate::verif::gate("persist_partitions:files_written", &partition.tablename);
 
                 let span_lock_meta_store = tracer.start_span("lock_meta_store");
                 let mut meta_store = self.meta_store.write().unwrap();
